@@ -602,6 +602,9 @@ func (fr *frame) callBySig(con *Contract, si *sigInfo, c *ssa.CallCommon, args [
 	}
 	sc := fr.postScopeSig(si, results, fr.cur.mem, pre, args)
 	for _, en := range con.Ensures {
+		if en.NoAssume {
+			continue // a `claims` clause states what the property demands; callers may not rely on it
+		}
 		t := sc.evalBool(en.E)
 		if sc.err != nil {
 			ft.fatal = fmt.Sprintf("%s:%d: ensures (at call): %v", en.File, en.Line, sc.err)
